@@ -357,7 +357,7 @@ func (c *Cluster) opFairCycle(s *Step) {
 func (c *Cluster) liveBabbling() []*SimNode {
 	res := []*SimNode{}
 	for _, n := range c.nodes {
-		if n.running() && !n.silent && n.state() == _state.Babbling {
+		if n.running() && !n.silent && !n.isObserver && n.state() == _state.Babbling {
 			res = append(res, n)
 		}
 	}
